@@ -206,6 +206,10 @@ const (
 // should be.
 const TMatchOnes = 100
 
+// TMatchUnassigned: a length symbol followed by the first unassigned distance
+// codeword of maximal length (falls back to 15 one-bits for a complete code).
+const TMatchUnassigned = 101
+
 type Token struct {
 	Kind int
 	Lit  byte
@@ -399,6 +403,16 @@ func (s *Stream) tokens(toks []Token, litLens []int, litCodes []uint32, distLens
 			s.W.Bits(uint32(le), LenExtra[ls])
 			s.W.Bits(0x7fff, 15)
 			s.Valid = false
+		case TMatchUnassigned:
+			ls, le := LenSym(t.Len)
+			s.W.Code(litCodes[257+ls], litLens[257+ls])
+			s.W.Bits(uint32(le), LenExtra[ls])
+			if c, n, ok := FirstUnassigned(distLens[:30]); ok {
+				s.W.Code(c, n)
+			} else {
+				s.W.Bits(0x7fff, 15)
+			}
+			s.Valid = false
 		case TOnes:
 			s.W.Bits(0x7fff, 15)
 			s.Valid = false
@@ -554,7 +568,7 @@ func Usage(toks []Token) (litFreq [286]int, distFreq [30]int) {
 		switch t.Kind {
 		case TLit:
 			litFreq[t.Lit]++
-		case TMatch, TRawDist, TMatchOnes:
+		case TMatch, TRawDist, TMatchOnes, TMatchUnassigned:
 			ls, _ := LenSym(t.Len)
 			if t.Alt258 && t.Len == 258 {
 				ls = 27
@@ -834,4 +848,101 @@ func TwoDeepTrees(r *gen.Rand, litToo bool) (stream, plain []byte, desc string) 
 		panic("synth: TwoDeepTrees invalid")
 	}
 	return s.W.Bytes(), s.Plain, "two-deep-dist-subtrees " + fmt.Sprint(s.Desc)
+}
+
+// FirstUnassigned returns (code, length) of the numerically first unassigned
+// codeword of maximal length in an incomplete canonical code, MSB-first, or
+// ok=false when the code is complete or empty.
+func FirstUnassigned(lengths []int) (code uint32, n int, ok bool) {
+	max := 0
+	for _, l := range lengths {
+		if l > max {
+			max = l
+		}
+	}
+	if max == 0 || Kraft(lengths) >= 1<<15 {
+		return 0, 0, false
+	}
+	var count [17]int
+	for _, l := range lengths {
+		count[l]++
+	}
+	count[0] = 0
+	c := uint32(0)
+	for b := 1; b <= max; b++ {
+		c = (c + uint32(count[b-1])) << 1
+	}
+	c += uint32(count[max]) // first code after the assigned ones of maximal length
+	if c >= 1<<uint(max) {
+		return 0, 0, false
+	}
+	return c, max, true
+}
+
+// WindowEdge builds a stream whose tiny dynamic block (j literals from a two- or
+// three-symbol alphabet with 1-3-bit codes, so that the decoder's packed
+// multi-symbol table entries cover "literal literal end-of-block") begins when
+// exactly 65536-delta bytes (plus k further 32 KiB) have been produced: the
+// entry meets the full 64 KiB output window. tinyFinal makes that block the
+// last one; otherwise a fixed block follows.
+func WindowEdge(r *gen.Rand, delta, j, k int, tinyFinal bool, withMatch bool) (stream, plain []byte, desc string) {
+	s := NewStream(r)
+	P := 65536 + k*32768 - delta
+	for left := P; left > 0; {
+		n := left
+		if n > 65535 {
+			n = r.Range(1, 65535)
+		}
+		if r.Bool() {
+			s.Stored(false, r.Bytes(n))
+		} else {
+			// compressible filler through a fixed block of matches
+			var toks []Token
+			toks = append(toks, Lit(byte(r.Intn(256))))
+			m := n - 1
+			for m > 0 {
+				l := 258
+				if m < l {
+					l = m
+				}
+				if l < 3 {
+					for ; m > 0; m-- {
+						toks = append(toks, Lit(byte(r.Intn(256))))
+					}
+					break
+				}
+				if m-l > 0 && m-l < 3 {
+					l -= 3
+				}
+				toks = append(toks, Match(l, 1))
+				m -= l
+			}
+			s.Fixed(false, toks, true)
+		}
+		left -= n
+	}
+	var toks []Token
+	a, b := byte(r.Intn(256)), byte(r.Intn(256))
+	for i := 0; i < j; i++ {
+		if r.Bool() {
+			toks = append(toks, Lit(a))
+		} else {
+			toks = append(toks, Lit(b))
+		}
+	}
+	if withMatch {
+		toks = append(toks, Match(r.Range(3, 10), r.Range(1, 4)))
+		toks = append(toks, Lit(a))
+	}
+	lit, dist := LengthsFor(r, toks, CodeOpts{MaxLit: r.Range(2, 3), MaxDist: r.Range(1, 2), Shape: "flat"})
+	sp := NewDynSpec()
+	sp.LitLens, sp.DistLens = lit, dist
+	s.Dynamic(tinyFinal, toks, sp, true)
+	if !tinyFinal {
+		s.Fixed(true, RandomTokens(r, len(s.Plain), r.Range(0, 200), "mixed"), true)
+	}
+	if !s.Valid {
+		panic("synth: WindowEdge invalid")
+	}
+	return s.W.Bytes(), s.Plain, fmt.Sprintf("window-edge(delta=%d j=%d k=%d final=%v match=%v)", delta, j, k, tinyFinal, withMatch)
 }
